@@ -31,6 +31,18 @@ CHECKS["C04"] = dict(level="exploration",
    technique="runtime monitor with ground truth by construction and rule-targeted mutation, cross-checked by an independent validator",
    design_ref="DESIGN.md §6 C04")
 
+CHECKS["C11"] = dict(level="exploration",
+   text="All 14 scripted single-flight interleavings (inbound and subgraph layer, both release orders, 2-4 participants) are executed deterministically through the verif yield points of the resolver, plus 2000 (quick) / 30000 (thorough) seeded stress rounds of 8-64 goroutines on 1-3 hot keys with random cancellations and micro-delay perturbation, all under the Go race detector. Every participant's outcome is compared with its solo outcome (separate resolver, both de-dup layers off) and classified into the statement's three allowed outcomes; upstream calls are accounted per participant (sharing happened; mutations and different variables/headers never share); follower buffers are re-hashed after delivery; panics and wedges are attributed to the case. Schedules outside the six yield points and the perturbed stress are not enumerated.",
+   note="Trusted: the fake datasource / rate limiter / header builder (context-aware, pure per key), the verif yield hooks, the solo reference run, the Go race detector, the framework watchdog and hang protocol.",
+   technique="scripted yield-point interleavings + seeded stress under -race, solo-equivalence oracle, call conservation",
+   design_ref="DESIGN.md §6 C11, notes/scenarios.md")
+
+CHECKS["C06"] = dict(level="exploration",
+   text="Runtime monitoring of the real variables admission (ExecutionEngine.Execute: normalisation with extraction / list coercion / default injection, VariablesMapper, ValidateWithRemap; refused iff the request options are not reached) and of the standalone VariablesValidator with DisableExposingVariablesContent, on generated schemas x operations whose arguments are mostly variables x JSON assignments built FROM the variable types (coercible by construction) and copies carrying exactly one coercion-targeted mutation (16 kinds). Ground truth by construction cross-checked by the harness's reference coercer; judged only when both agree. Oracles: coercible => admitted; mutated => refused, naming the client's variable and every field on the path, never echoing a sentinel placed in the offending value when exposure is disabled. Held on the executions observed.",
+   note="Trusted: the value generator's construction invariant, the reference coercer (spec input coercion for JSON transport). List indexes in rejection paths are counted, not judged. Operations refused for reasons unrelated to variables are left to C04.",
+   technique="runtime monitor with ground truth by construction and coercion-targeted mutation, cross-checked by a reference coercer",
+   design_ref="DESIGN.md §6 C06")
+
 NOT_YET = {
 }
 
